@@ -24,6 +24,7 @@ func runC12(w *core.World, r *core.Report) {
 	r.Rule("R1", "fs Put path: only CreateTemp(dir of record) / Write / Close / Rename(temp name, record) / Remove(temp); order Write,Close < Rename; success passes Rename; no other renamer/writer in db/fs")
 	r.Rule("R2", "engine: fallback Save only behind db.IsNotFound(load error); Load returns the store's error unchanged")
 	r.Rule("R3", "no directory-wide file operation under Put")
+	r.Rule("R6", "a failed open of a record is a miss only when the file does not exist; every other open failure reaches the caller")
 	r.Rule("R5", "atomic writer: the error of every Write, Sync and Close on the temporary file reaches a nil test that gates the rename")
 	r.Rule("R4", "the session snapshot is one record: Persister.Save performs exactly one Put, Load exactly one Get (no multi-step save)")
 
@@ -294,6 +295,7 @@ func runC12(w *core.World, r *core.Report) {
 	}
 	// ---- R5 -----------------------------------------------------------------------------------
 	checkWriteErrorsGateRename(w, r, "R5")
+	checkOpenErrorsClassified(w, r, "R6")
 }
 
 // addErrorEdgesOfReturns adds, for returns whose error operand is a phi, the incoming CFG edges on
